@@ -435,6 +435,31 @@ void trace_dim() {
     }
     set_vp_defaults(1., 2., 3.5);
   }
+  // the same functions with the whole tables as outputs, for a core set of 3D patterns (the Lean proofs
+  // about the bilinear forms above are only affordable in 1D/2D)
+  if constexpr (N == 3) {
+    for (const auto& p : dpats) {
+      const std::string pn = p.name;
+      if (!((pn == "p01_pp") || (pn == "dist_ppp") || (pn == "dist_nnn"))) continue;
+      set_vp_defaults(p.l0, p.l1, p.l2);
+      Unit u(d + "dect_" + p.name);
+      stensor<N, Sym> s;
+      verif::fill_inputs(s, "s", S);
+      const Sym eps = verif::scalar_input("eps", p.eps);
+      st2tost2<N, Sym> dpp, dnp, dpp2;
+      stensor<N, Sym> pp, np, pp2;
+      computeStensorDecompositionInPositiveAndNegativeParts(dpp, dnp, pp, np, s,
+                                                            eps);
+      computeStensorPositivePartAndDerivative(dpp2, pp2, s, eps);
+      verif::outputs2("a", dpp, S, S);
+      verif::outputs2("b", dnp, S, S);
+      verif::outputs("p", pp, S);
+      verif::outputs("n", np, S);
+      verif::outputs2("qa", dpp2, S, S);
+      verif::outputs("qp", pp2, S);
+      set_vp_defaults(1., 2., 3.5);
+    }
+  }
   verif::ctx().concolic = false;
 }
 
